@@ -154,4 +154,10 @@ var plans = map[string]plan{
 		Rule:     "cases are (request kind unroutable / routable-invalid / valid; handler script = sequence of Header().Set, WriteHeader, Write of marker-carrying chunks that together form valid or invalid JSON, Flush; strict flag; default or recording error callback; front = Validator.Middleware, ValidationHandler.ServeHTTP, ValidationHandler.Middleware). enum stage: every script of length <= 3 over an 11-action alphabet x strict x callback for valid requests, and the first 200 scripts x the other request kinds and fronts, complete; rapid stage: scripts up to length 8. Oracle: differential run of the same script against a recorder exposing the same optional interfaces the handler sees through the wrapper, plus the gating model (handler runs iff routed and valid; 404 'not found' / 400 'bad request' or exactly one error-callback call otherwise; strict + invalid response => 500 'server error' and no handler chunk reaches the client). non-trivial = the script is not the plain WriteHeader;Write pair, or the request is not valid. distinct = FNV-64a of the canonical case JSON.",
 		Assume:   []string{"whether the handler's response is valid is decided by ValidateResponse on the reference run's output (C08 covers that function)", "1xx interim statuses are not generated"},
 	},
+	"C18": {
+		Quick:    []stage{rapidStage(6_000)},
+		Thorough: []stage{rapidStage(120_000)},
+		Rule:     "cases are (Go type built at run time from a generated descriptor with reflect: booleans, every sized integer and float, strings, []byte, time.Time, pointers at any level, slices, string-keyed maps, structs with json tags (renamed, omitempty, '-', untagged, name-less omitempty), embedded hand-declared structs incl. colliding names, and hand-declared recursive types (self through pointer / slice / map, mutual recursion, untagged self-reference); a value with integer extremes, non-nil slices and maps, nil and non-nil pointers, times in years 1-9999, finite floats; option set default / UseAllExportedFields / CreateComponentSchemas / both). The JSON produced by encoding/json for the value must validate (float64 and json.Number trees) against the schema generated for the type after the component map has been loaded as a document. non-trivial = (>= 2 levels of nesting, a pointer inside a container, an embedded struct or a recursive type) and (a numeric extreme or a nil pointer in the value). distinct = FNV-64a of the canonical case JSON.",
+		Assume:   []string{"the encoding under test is the one encoding/json produced when the case was generated (stored in the case)", "interfaces, arrays, json.RawMessage, the ',string' option and custom marshalers are outside the statement's list of kinds"},
+	},
 }
